@@ -50,7 +50,20 @@ def runtime_selector_rule(ctx: Ctx, rid: str) -> None:
                     ctx.bad(f"compiler:CodeGenerator.{entry}", "run-time selector for a non-volatile frame", f"{entry} emits a run-time autoescape test although the frame is not volatile [{short_flags(p, 4)}]", "src/jinja2/compiler.py")
         if not reported and any("context.eval_ctx" in sk.text for _, sk in items):
             ctx.ok(entry)
+        # the compile-time flag may decide the emitted code only once the frame is known not to
+        # be volatile: an emission path that consults frame.eval_ctx.autoescape without having
+        # taken the `not volatile` branch bakes the compile-time default into code that runs
+        # under `{% autoescape expr %}`
+        early = [p for p, sk in items if p.outcome == "normal" and AUTO in p.decisions and p.decisions.get(VOL) is not False]
+        if any(AUTO in p.decisions for p, _ in items):
+            ctx.check(not early, f"{entry}:static-flag-needs-non-volatile", f"compiler:CodeGenerator.{entry}", "compile-time autoescape flag consulted for a possibly volatile frame",
+                      f"{entry} chooses its emission from frame.eval_ctx.autoescape on a path where frame.eval_ctx.volatile was not ruled out [{short_flags(early[0], 4) if early else ''}]: inside `{{% autoescape expr %}}` the run-time setting is ignored - markup is escaped twice or not at all", "src/jinja2/compiler.py")
     ctx.floor("run-time selectors in skeletons", n, 100)
+    # nodes whose whole purpose is a run-time choice keep it
+    ms = res.get("visit_MarkSafeIfAutoescape") or []
+    ctx.need(bool(ms), "visit_MarkSafeIfAutoescape has no emission path")
+    ctx.check(all("context.eval_ctx.autoescape" in sk.text or p.decisions.get(VOL) is False for p, sk in ms), "MarkSafeIfAutoescape:run-time", "compiler:CodeGenerator.visit_MarkSafeIfAutoescape", "no run-time autoescape test",
+              "MarkSafeIfAutoescape must choose Markup / identity from context.eval_ctx.autoescape at run time (old-style gettext output inside `{% autoescape expr %}`)", "src/jinja2/compiler.py")
 
 
 def output_wrapping_rule(ctx: Ctx, rid: str) -> None:
